@@ -112,6 +112,10 @@ def inject(c, fault, meth):
         c.x3 = st.state(); c.u3 = st.control(); st.set_der(c.x3, c.u3 + 1)
     elif fault == 'unknown_grid_integral': st.add_objective(st.integral(c.x ** 2, grid='foo'))
     elif fault == 'unknown_grid_sum': st.add_objective(st.sum(c.x ** 2, grid='integrator'))
+    elif fault == 'unknown_grid_sum_plus': st.add_objective(st.sum(c.x ** 2, grid='foo', include_last=True))
+    elif fault == 'state_without_der':
+        # a further (quadrature) state whose derivative is never declared -- also when it is added after a successful solve
+        c.x3 = st.state(quad=(meth == 'DC'))
     elif fault == 'alg_without_algebraic': st.add_alg(c.x - 2 * c.u)
     elif fault == 'spline_quadstate':
         c.xq = st.state(quad=True); st.set_der(c.xq, c.x ** 2); st.add_objective(st.at_tf(c.xq))
